@@ -359,6 +359,10 @@ namespace T
    template< typename A > using w_disable = p::disable< A >;
    struct LogState;
    template< typename A > using w_state = p::state< LogState, A >;
+   // action rules (apply / apply0 / if_apply): the action is a plain struct, its decision an explorer choice
+   struct rule_action;
+   struct rule_action0;
+   template< typename A > using w_if_apply = p::if_apply< A, rule_action >;
    template< typename A > using w_action_alt = p::action< p::nothing, A >;
    template< typename A > using w_control_alt = p::control< p::normal, A >;
    template< typename A > using w_raw1 = p::raw_string< '[', '=', ']', A >;
@@ -530,6 +534,9 @@ namespace T
    B2( TC_RF2, G_EXC, w_tc_rf2 ) \
    U1( ENABLE, G_ACT, w_enable ) \
    U1( DISABLE, G_ACT, w_disable ) \
+   U1( IF_APPLY, G_ACT, w_if_apply ) \
+   A0( APPLY, G_ACT, ( p::apply< rule_action > ) ) \
+   A0( APPLY0, G_ACT, ( p::apply0< rule_action0 > ) ) \
    U1( STATE, G_STATE, w_state )
 
    enum Op : uint8_t
@@ -1308,6 +1315,47 @@ namespace T
       L.all_acts.push_back( { I, b, en, how } );
       if( L.record_events ) L.ev.push_back( { E_ACT, int16_t( I ), RK_NODE, 1, 1, 0, en, b } );
    }
+
+   // actions of the apply / apply0 / if_apply rules: pseudo rule ids 200 (with input) and 201 (without)
+   constexpr int RULE_ACTION_ID = 200, RULE_ACTION0_ID = 201;
+   struct rule_action
+   {
+      template< typename AI, typename... St >
+      static bool apply( const AI& in, St&&... )
+      {
+         const int b = int( in.begin() - g_begin ), e = int( in.end() - g_begin );
+         if( monitor_apply_mode && expected_A() != 1 ) {
+            ++L.c04;
+            L.c04_msg = "action of an apply / if_apply rule invoked inside look-ahead or a disabled section";
+         }
+         if( in.end() != in.input().current() ) {
+            ++L.c04;
+            L.c04_msg = "action input end of an apply / if_apply rule differs from the cursor";
+         }
+         L.acts.push_back( { RULE_ACTION_ID, b, e, 1 } );
+         L.all_acts.push_back( { RULE_ACTION_ID, b, e, 1 } );
+         const int d = act_decision( RULE_ACTION_ID, b, e, true );
+         if( d == 2 ) throw ActX{ RULE_ACTION_ID };
+         return d == 0;
+      }
+   };
+   struct rule_action0
+   {
+      template< typename... St >
+      static bool apply0( St&&... )
+      {
+         if( monitor_apply_mode && expected_A() != 1 ) {
+            ++L.c04;
+            L.c04_msg = "action of an apply0 rule invoked inside look-ahead or a disabled section";
+         }
+         const int b = L.frames.empty() ? -1 : int( L.frames.back().begin - g_begin );
+         L.acts.push_back( { RULE_ACTION0_ID, b, -1, 2 } );
+         L.all_acts.push_back( { RULE_ACTION0_ID, b, -1, 2 } );
+         const int d = act_decision( RULE_ACTION0_ID, b, -2, true );
+         if( d == 2 ) throw ActX{ RULE_ACTION0_ID };
+         return d == 0;
+      }
+   };
 
    // which rule ids carry which kind of action:  0 none, 1 void apply, 2 void apply0, 3 bool apply, 4 bool apply0
    inline int act_kind_of( int fam, int I )
